@@ -303,7 +303,7 @@ def unit_atheris(rec: Rec, shard: int, runs: int, seeded: bool) -> None:
             for i, s in enumerate(samples):
                 with open(os.path.join(corpus, f"s{i}"), "wb") as f:
                     f.write(b"\x00\x00\x00\x00" + s)
-        env = dict(os.environ, PYTHONPATH=os.pathsep.join([os.environ.get("VERIF_REPO", "/repo"), VERIF, deps]), FUZZ_CRASH_DIR=crashdir)
+        env = dict(os.environ, PYTHONPATH=os.pathsep.join([os.environ.get("VERIF_REPO", "/repo"), VERIF]), FUZZ_CRASH_DIR=crashdir)
         cmd = [sys.executable, target, corpus, f"-runs={runs}", f"-seed={rec.seed * 100 + shard + 1}", "-max_len=400", "-timeout=20",
                f"-artifact_prefix={crashdir}/", "-print_final_stats=1"]
         r = subprocess.run(cmd, env=env, capture_output=True, text=True, timeout=3600)
